@@ -338,6 +338,22 @@ pub fn run_check(ctx: &Ctx) -> i32 {
         }
     }
     slice(ctx, &format!("(5c) every pair from a {}-selector mixed pool ({} pairs) x Dred<=3", pool.len(), pairs.len()), &red, 3, &pairs, false);
+    // (6) deep mis-nesting x counting selectors: one end tag closing several nested elements of
+    // the same type, followed by new siblings at intermediate depths
+    let tiny = vec![DEv::open("a"), DEv::open("q"), DEv::close("a"), DEv::close("q")];
+    let counting: Vec<Simple> = vec![
+        Simple::FirstChild, Simple::NthChild(2, 1), Simple::NthChild(0, 2), Simple::NthChild(-1, 2), Simple::FirstOfType, Simple::NthOfType(0, 2),
+        Simple::NthOfType(2, 1), Simple::NthOfType(-1, 2), not1(Simple::FirstOfType), not1(Simple::FirstChild),
+    ];
+    let mut csel: Vec<SelList> = vec![];
+    for c in &counting {
+        csel.push(SelList::one(Complex::single(Compound::one(c.clone()))));
+        csel.push(SelList::one(Complex::single(Compound(vec![ty("a"), c.clone()]))));
+        csel.push(SelList::one(Complex { compounds: vec![Compound::one(ty("q")), Compound(vec![ty("a"), c.clone()])], combs: vec![Comb::Child] }));
+        csel.push(SelList::one(Complex { compounds: vec![Compound(vec![ty("q"), c.clone()]), Compound::one(ty("a"))], combs: vec![Comb::Descendant] }));
+    }
+    let deep = if quick { 7 } else { 9 };
+    slice(ctx, &format!("(6) {} counting selectors (:nth-child/:nth-of-type families, alone and in chains) in groups of 20 x every document over {{<a>,<q>,</a>,</q>}} up to length {deep}", csel.len()), &tiny, deep, &jobs_from(csel, 20, true), false);
     ctx.finish(
         "model_checking",
         RULE,
